@@ -198,7 +198,7 @@ h_run.env_opts = {"rng": "real"}
 
 def run_cases(prop, tier, hib_values=(False, True)):
     cs = []
-    steps = 4 if tier == "quick" else 7
+    steps = 4 if tier == "quick" else 6
     combos = [(("ea", "cma"), "nbc-default", 10), (("ea", "cma"), "simple", 4), (("de", "ea", "cma"), "nbc", 4), (("ea", "local"), "nbc", 4),
               (("ea", "local"), "simple:terrace", 4)]
     if tier != "quick":
@@ -207,7 +207,7 @@ def run_cases(prop, tier, hib_values=(False, True)):
         mech, _, objective = mech.partition(":")
         for hib in hib_values:
             for L in ((2,) if tier == "quick" else (1, 2)):
-                st = steps if len(kinds) == 2 else min(steps, 5)  # 3-level runs fork on more local-stop verdicts per step
+                st = steps if len(kinds) == 2 else min(steps, 4)  # 3-level runs fork on more local-stop verdicts per step
                 cs.append(dict(name=f"run.{'-'.join(kinds)}.{mech}{'.' + objective if objective else ''}.hib{hib}.L{L}.steps{st}", fn=h_run,
                                params=dict(kinds=list(kinds), props=[prop], steps=st, mech=mech, hibernation=hib, L=L, pop=pop,
                                            objective=objective or "smooth",
